@@ -370,15 +370,15 @@ class Check(core.PropertyCheck):
             g = m.graph
             behs = g.edge_cover(ctx.rng, max_len=12, tail=6)
             if not ctx.quick:
-                behs += g.random_walks(ctx.rng, 3000, 10)
+                behs += g.random_walks(ctx.rng, 1500, 10)
             for b in behs:
                 if b[-1][0] != "Finish":
                     continue  # the trace of the real run always ends with the peers' streams
-                reps = 1 if ctx.quick else 3  # several spellings per class
+                reps = 1 if ctx.quick else 2  # several spellings per class
                 for _ in range(reps):
                     yield core.Scenario(self.concretise(b, rng), predicted=core.predicted_events(b), source="model")
         rr = random.Random(ctx.seed + 101)
-        for _ in range(300 if ctx.quick else 6000):
+        for _ in range(300 if ctx.quick else 3000):
             yield core.Scenario(random_scenario(rr), source="random")
 
     def execute(self, sc):
